@@ -198,7 +198,7 @@ Definition c13_oracle (f : func) (sts : list sstate) (obs : res lmap) (probes : 
 
 Inductive case :=
 | K (f : func) (big : bool) (mem : list (Z * Z)) (envs : list senv) (obs : res lmap) (probes : list probe)
-    (da : bool).     (* the harness' definite-assignment verdict (decides the kf: tag); tied to def_assigned *)
+    (da : bool).     (* the harness' definite-assignment verdict (distribution tag); tied to def_assigned *)
 
 Definition probe_tie (obs : res lmap) (p : probe) : bool :=
   match p, obs with
@@ -216,7 +216,7 @@ Definition ck (k : case) : bool * bool :=
   match k with
   | K f big mem envs obs probes da =>
       (res_eqb lmap_eqb (constants_max CASE_MAX f) obs && forallb (probe_tie obs) probes && Bool.eqb (def_assigned f) da &&
-       (* [V] the hypothesis of constants_sound_partial, validated on the model's own solution *)
-       (if def_assigned f then match constants_states CASE_MAX f with Ok m => exact_solution f m | _ => true end else true),
+       (* [V] constants_exact, re-validated on the model's own solution of every case *)
+       (match constants_states CASE_MAX f with Ok m => exact_solution f m | _ => true end),
        c13_oracle f (List.map (fun en => mkst en (mkbmem big mem)) envs) obs probes)
   end.
